@@ -525,7 +525,7 @@ func init() {
 	gen := genParsers("C15", false)
 	Register(&Checker{
 		ID: "C15", Level: "exploration", Engine: "B",
-		Rule:     "case = batch of grammars x 5 variants. (a) histories on one parser: seeded sequences of init (or a fresh context) + parse(x), x drawn from accepted, rejected (parse aborted by the parser's own panic) and lexer-fails-at-token-i inputs of different lengths; (b) -o variants: 2-4 contexts, each with its own op list, advanced one yield point (every GetToken call and every reduction) at a time by a seeded scheduler with uniform / burst / switch-after-reduce policies, half of them with the trace on (output attributed per context). (c) in some batches the contexts of every -o parser also run in truly parallel goroutines in a -race build of the driver (results compared with solo runs; a race report with a frame in generated code is a violation; this part is not exactly replayable). Oracle: every parse equals the same input parsed alone right after initialisation (verdict, reductions, tokens requested, value, trace). distinct_nontrivial = distinct interleavings (context-id sequences) + distinct grammars.",
+		Rule:     "case = batch of grammars x 5 variants. (a) histories on one parser: seeded sequences of init (or a fresh context) + parse(x), x drawn from accepted, rejected (parse aborted by the parser's own panic) and lexer-fails-at-token-i inputs of different lengths; (b) -o variants: 2-4 contexts, each with its own op list, advanced one yield point (every GetToken call and every reduction) at a time by a seeded scheduler with uniform / burst / switch-after-reduce policies, half of them with the trace on (output attributed per context). (c) in some batches the contexts of every -o parser also run in truly parallel goroutines in a -race build of the driver (results compared with solo runs; a race report with a frame in generated code is a violation; this part is not exactly replayable). (d) global Go form: parses suspended at a seeded reduction for a nested parse (PushContex / ParserInit / Parser / PopContex from the action, up to two levels, nested parse accepted, rejected or aborted). (e) a parse of the empty input from a package-level initialiser, compared with the same parse after initialisation. (f) soak: one parser re-initialised and parsing the same short input 1.2 million times, every round compared with round 0. Oracle: every parse equals the same input parsed alone right after initialisation (verdict, reductions, tokens requested, value, trace). distinct_nontrivial = distinct interleavings (context-id sequences) + distinct grammars.",
 		NumCases: func(ctx *Ctx) int { return fixedCases(ctx, 32, 800) },
 		Gen: func(ctx *Ctx, i int) *Input {
 			in := gen(ctx, i)
@@ -535,8 +535,8 @@ func init() {
 			return in
 		},
 		Exec:      execC15,
-		Probes:    []string{"parallel_runs_under_race_detector", "histories", "interleavings", "context_switches", "fault_lexer_failed_mid_parse", "fault_parse_aborted_by_syntax_error", "histories_typescript"},
-		FaultKeys: []string{"fault_lexer_failed_mid_parse", "fault_parse_aborted_by_syntax_error"},
+		Probes:    []string{"parallel_runs_under_race_detector", "histories", "interleavings", "context_switches", "fault_lexer_failed_mid_parse", "fault_parse_aborted_by_syntax_error", "histories_typescript", "fault_parse_suspended_by_nested_parse", "parses_during_package_initialisation", "soak_histories"},
+		FaultKeys: []string{"fault_lexer_failed_mid_parse", "fault_parse_aborted_by_syntax_error", "fault_parse_suspended_by_nested_parse"},
 		Assume:    []string{"parts (a) and (b): exactly one context runs at a time (cooperative scheduler owned by the harness), exactly replayable; part (c): the Go scheduler decides, the race detector has no false positives but finds only races that the executed schedule exposes", "'alone' = first parse after initialisation in the same process"},
 		Real:      []string{"yaccgo generator (instrumented copy)", "go build", "generated parsers incl. their ParserInit / MakeParserContext / initialize"},
 		Stubs:     []string{"token source", "context scheduler (seeded, cooperative)"},
